@@ -324,6 +324,12 @@ fn interpolate_token_slice(
         while v.is_string() {
             v = v.interpolate(params, &mut st)?;
         }
+        if v.is_mapping() || v.is_sequence() {
+            // A Mapping or Sequence which is looked up directly isn't interpolated by
+            // `resolve()`. Interpolate it here, so that references and ValueLists in its
+            // members are resolved before the value is rendered as a string.
+            v = v.interpolate(params, &mut st)?;
+        }
         res.push_str(&v.raw_string()?);
     }
     Ok(res)
